@@ -37,6 +37,7 @@ def make_task(rng, W=None, GS=None, starve=None, variant=None):
         W, GS = 2, 2
     elif variant == "long":
         W = W or rng.choice([2, 2, 3, 4])
+        GS = GS or rng.choice([1, 1, W])          # with one trainer per group no rank can be starved (D5a), whatever the late change is
     W = W or rng.choice([1, 2, 2, 3, 4, 4, 6, 8])
     GS = GS or rng.choice([d for d in range(1, W + 1) if W % d == 0])
     name = rng.choice([k for k, t in DDP_TEMPLATES.items() if int(k[1:]) >= GS])
@@ -84,7 +85,8 @@ def make_task(rng, W=None, GS=None, starve=None, variant=None):
             masks.append([list(cur)])
     else:
         masks = dc.random_masks(rng, draw, rng.choice([3, 4, 5]))
-    return {"draw": draw, "W": W, "GS": GS, "comm": rng.choice(["fp32", "fp32", "bf16", "fp16"]), "comm_params": rng.random() < 0.4,
+    return {"draw": draw, "W": W, "GS": GS, "comm": "fp32" if variant == "big" else rng.choice(["fp32", "fp32", "bf16", "fp16"]),
+            "comm_params": rng.random() < 0.4,
             "masks": masks, "seed": rng.randrange(1 << 30), "template": name}
 
 
